@@ -3203,6 +3203,11 @@ nested_parse_template_instantiation(CPPTemplateScope *scope) {
   for (pi = formal_params._parameters.begin();
        pi != formal_params._parameters.end() && _parsing_template_params;) {
     CPPToken token = peek_next_token();
+    if (token._token == 0) {
+      // End of input within the parameter list; a parameter pack would
+      // otherwise keep us here for ever.
+      break;
+    }
     YYLTYPE loc = token._lloc;
 
     CPPDeclaration *decl = (*pi);
